@@ -106,10 +106,10 @@ sp_ctrsv(char *uplo, char *trans, char *diag, SuperMatrix *L,
 
     /* Test the input parameters */
     *info = 0;
-    if ( strncmp(uplo,"L", 1)!=0 && strncmp(uplo, "U", 1)!=0 ) *info = -1;
-    else if ( strncmp(trans, "N", 1)!=0 && strncmp(trans, "T", 1)!=0 && 
-              strncmp(trans, "C", 1)!=0) *info = -2;
-    else if ( strncmp(diag, "U", 1)!=0 && strncmp(diag, "N", 1)!=0 )
+    if ( (strncmp(uplo, "L", 1)!=0 && strncmp(uplo, "l", 1)!=0) && (strncmp(uplo, "U", 1)!=0 && strncmp(uplo, "u", 1)!=0) ) *info = -1;
+    else if ( (strncmp(trans, "N", 1)!=0 && strncmp(trans, "n", 1)!=0) && (strncmp(trans, "T", 1)!=0 && strncmp(trans, "t", 1)!=0) && 
+              (strncmp(trans, "C", 1)!=0 && strncmp(trans, "c", 1)!=0)) *info = -2;
+    else if ( (strncmp(diag, "U", 1)!=0 && strncmp(diag, "u", 1)!=0) && (strncmp(diag, "N", 1)!=0 && strncmp(diag, "n", 1)!=0) )
          *info = -3;
     else if ( L->nrow != L->ncol || L->nrow < 0 ) *info = -4;
     else if ( U->nrow != U->ncol || U->nrow < 0 ) *info = -5;
@@ -128,9 +128,9 @@ sp_ctrsv(char *uplo, char *trans, char *diag, SuperMatrix *L,
     if ( !(work = singlecomplexCalloc(L->nrow)) )
 	ABORT("Malloc fails for work in sp_ctrsv().");
     
-    if ( strncmp(trans, "N", 1)==0 ) {	/* Form x := inv(A)*x. */
+    if ( (strncmp(trans, "N", 1)==0 || strncmp(trans, "n", 1)==0) ) {	/* Form x := inv(A)*x. */
 	
-	if ( strncmp(uplo, "L", 1)==0 ) {
+	if ( (strncmp(uplo, "L", 1)==0 || strncmp(uplo, "l", 1)==0) ) {
 	    /* Form x := inv(L)*x */
     	    if ( L->nrow == 0 ) { SUPERLU_FREE(work); return 0; } /* Quick return */
 	    
@@ -233,9 +233,9 @@ sp_ctrsv(char *uplo, char *trans, char *diag, SuperMatrix *L,
 	    } /* for k ... */
 	    
 	}
-    } else if ( strncmp(trans, "T", 1)==0 ) { /* Form x := inv(A')*x */
+    } else if ( (strncmp(trans, "T", 1)==0 || strncmp(trans, "t", 1)==0) ) { /* Form x := inv(A')*x */
 	
-	if ( strncmp(uplo, "L", 1)==0 ) {
+	if ( (strncmp(uplo, "L", 1)==0 || strncmp(uplo, "l", 1)==0) ) {
 	    /* Form x := inv(L')*x */
     	    if ( L->nrow == 0 ) { SUPERLU_FREE(work); return 0; } /* Quick return */
 	    
@@ -313,7 +313,7 @@ sp_ctrsv(char *uplo, char *trans, char *diag, SuperMatrix *L,
 	}
     } else { /* Form x := conj(inv(A'))*x */
 	
-	if ( strncmp(uplo, "L", 1)==0 ) {
+	if ( (strncmp(uplo, "L", 1)==0 || strncmp(uplo, "l", 1)==0) ) {
 	    /* Form x := conj(inv(L'))*x */
     	    if ( L->nrow == 0 ) { SUPERLU_FREE(work); return 0; } /* Quick return */
 	    
